@@ -650,18 +650,60 @@ def add_time_candidates(ds, cands: list, nt: int, tdim: str = 'time'):
     return ds
 
 
-def timecoord_stream(ctx) -> None:
+def timecoord_case(recipe: dict, cands: list, tdim: str, tmp: str) -> dict:
+    """Build the dataset, ask the real convention for its time coordinate and save it."""
     import netCDF4
+    import xarray as xr
     from emsarray.exceptions import NoSuchCoordinateError
+    conv = recipe['conv']
+    built = G.build(recipe)
+    ds = add_time_candidates(built.ds, [tuple(cd) for cd in cands], 2, tdim)
+    if not cands:
+        ds['temp'] = xr.DataArray(np.arange(2.0), dims=[tdim])
+    built.ds = ds
+    c = G.bind(built)
+    try:
+        got = str(c.time_coordinate.name)
+    except NoSuchCoordinateError:
+        got = '-'
+    except Exception as e:   # noqa
+        got = f'ERR {type(e).__name__}'
+    order = list(ds.variables.keys())
+    vs = []
+    for name in order:
+        spec = next((cd for cd in cands if cd[0] == name), None)
+        if spec is None:
+            vs.append(f'{name}|!|0')
+        else:
+            vs.append(f"{name}|{'!' if spec[1] is None else esc(spec[1])}|{int(spec[2])}")
+    dims = ','.join(str(d) for d in ds.sizes) or '-'
+    res = {'tail': f"{CONV_KIND[conv]} {dims} {';'.join(vs)}", 'got': got, 'saved': None, 'error': None,
+           'dims': dims, 'order': order, 'class': type(c).__name__}
+    # the save itself: which variable has its units rewritten
+    raw, out = os.path.join(tmp, 'raw.nc'), os.path.join(tmp, 'out.nc')
+    try:
+        ds.to_netcdf(raw)
+    except Exception:
+        return res
+    try:
+        c.to_netcdf(out)
+        with netCDF4.Dataset(raw) as a, netCDF4.Dataset(out) as b:
+            changed = [n for n in a.variables if getattr(a.variables[n], 'units', None) != getattr(b.variables[n], 'units', None)]
+        res['saved'] = changed[0] if len(changed) == 1 else ('-' if not changed else 'MANY ' + ','.join(changed))
+    except Exception as e:
+        res['saved'] = 'ERR'
+        res['error'] = f'{type(e).__name__}: {str(e)[:160]}'
+    return res
+
+
+def timecoord_stream(ctx) -> None:
     rng = ctx.rng
-    items = []
     pending = []     # (line tail, impl discovery, impl save outcome, desc)
     tmp = tempfile.mkdtemp(prefix='c17tc')
     try:
         for k in range(ctx.budget(40, 300)):
             conv = G.CONVS[k % len(G.CONVS)]
             recipe = G.random_recipe(rng, conv, 'quick', **({'holes': False} if conv not in ('ugrid', 'cf1d') else {}))
-            built = G.build(recipe)
             names = rng.sample(['time', 't', 'record', 'Time', 'date', 'ocean_time', 'tt'], rng.randint(0, 4))
             cands = []
             for name in names:
@@ -670,58 +712,25 @@ def timecoord_stream(ctx) -> None:
                 is_dt = rng.random() < 0.7
                 cands.append((name, units, is_dt, rng.random() < 0.5 and name == 'time'))
             tdim = rng.choice(['time', 'time', 'record', 't'])
-            ds = add_time_candidates(built.ds, cands, 2, tdim)
-            if not cands and rng.random() < 0.7:
-                import xarray as xr
-                ds['temp'] = xr.DataArray(np.arange(2.0), dims=[tdim])
-            built.ds = ds
-            c = G.bind(built)
-            try:
-                got = str(c.time_coordinate.name)
-            except NoSuchCoordinateError:
-                got = '-'
-            except Exception as e:   # noqa
-                got = f'ERR {type(e).__name__}'
-            order = list(ds.variables.keys())
-            vs = []
-            for name in order:
-                spec = next((cd for cd in cands if cd[0] == name), None)
-                if spec is None:
-                    vs.append(f'{name}|!|0')
+            if k < len(G.CONVS):
+                # smallest case first: a `time` dimension carried by one data variable, no time variable
+                cands, tdim = [], 'time'
+            res = timecoord_case(recipe, cands, tdim, tmp)
+            desc = {'op': f"timecoord {res['tail']}", 'recipe': recipe, 'cands': cands, 'tdim': tdim}
+            if res['saved'] == 'ERR':
+                ctx.evaluated()
+                sig = 'save-raises-time-dimension-only' if 'does not have a data array named' in res['error'] else 'save-raises'
+                named = {'shoc_standard': 't', 'shoc_simple': 'time'}.get(conv)
+                spec = next((cd for cd in cands if cd[0] == named), None)
+                if spec is not None and not spec[2]:
+                    # a SHOC dataset whose `t` / `time` variable is not a time variable: outside the quantifier
+                    ctx.count('timecoord:shoc-named-variable-is-not-a-time(outside quantifier)')
                 else:
-                    vs.append(f"{name}|{'!' if spec[1] is None else esc(spec[1])}|{int(spec[2])}")
-            dims = ','.join(str(d) for d in ds.sizes) or '-'
-            tail = f"{CONV_KIND[conv]} {dims} {';'.join(vs)}"
-            desc = {'op': f'timecoord {tail}', 'recipe': recipe, 'cands': cands, 'tdim': tdim}
-            # the save itself: which variable has its units rewritten
-            saved = None
-            raw, out = os.path.join(tmp, 'raw.nc'), os.path.join(tmp, 'out.nc')
-            try:
-                ds.to_netcdf(raw)
-                plain_ok = True
-            except Exception:
-                plain_ok = False
-            if plain_ok:
-                try:
-                    c.to_netcdf(out)
-                    with netCDF4.Dataset(raw) as a, netCDF4.Dataset(out) as b:
-                        changed = [n for n in a.variables if getattr(a.variables[n], 'units', None) != getattr(b.variables[n], 'units', None)]
-                    saved = changed[0] if len(changed) == 1 else ('-' if not changed else 'MANY ' + ','.join(changed))
-                except Exception as e:
-                    saved = 'ERR'
-                    ctx.evaluated()
-                    sig = 'save-raises-time-dimension-only' if 'does not have a data array named' in str(e) else 'save-raises'
-                    named = {'shoc_standard': 't', 'shoc_simple': 'time'}.get(conv)
-                    spec = next((cd for cd in cands if cd[0] == named), None)
-                    if spec is not None and not spec[2]:
-                        # a SHOC dataset whose `t` / `time` variable is not a time variable: outside the quantifier
-                        ctx.count('timecoord:shoc-named-variable-is-not-a-time(outside quantifier)')
-                    else:
-                        ctx.oracle_fail(sig, desc, f'{type(c).__name__}.to_netcdf raised {type(e).__name__}: {str(e)[:160]} on a dataset '
-                                                   f'with dimensions {dims} and variables {order} that plain xarray writes fine')
-            pending.append((tail, got, saved, desc))
+                    ctx.oracle_fail(sig, desc, f"{res['class']}.to_netcdf raised {res['error']} on a dataset with dimensions "
+                                               f"{res['dims']} and variables {res['order']} that plain xarray writes fine")
+            pending.append((res['tail'], res['got'], res['saved'], desc))
             ctx.nontrivial(('timecoord', conv, tdim, tuple(map(tuple, cands))))
-            ctx.count(f'timecoord:{conv}:' + ('found' if got != '-' else 'none'))
+            ctx.count(f'timecoord:{conv}:' + ('found' if res['got'] != '-' else 'none'))
     finally:
         shutil.rmtree(tmp, ignore_errors=True)
     if ctx.driver is None:
@@ -1052,6 +1061,19 @@ def run_one(ctx, inp: dict) -> dict:
                 out['model'] = ctx.model([items[0][0]])[0]
         finally:
             shutil.rmtree(tmp, ignore_errors=True)
+        return out
+    if 'cands' in inp:
+        tmp = tempfile.mkdtemp(prefix='c17rp')
+        try:
+            res = timecoord_case(inp['recipe'], inp['cands'], inp.get('tdim', 'time'), tmp)
+        finally:
+            shutil.rmtree(tmp, ignore_errors=True)
+        out['impl'] = f"time_coordinate={res['got']} save={res['saved']}" + (f" ({res['error']})" if res['error'] else '')
+        if ctx.driver:
+            a, b = ctx.model([f"timecoord {res['tail']}", f"savetime {res['tail']}"])
+            out['model'] = f'time_coordinate={a} save={b}'
+            a, b = ctx.model([f"timecoordcur {res['tail']}", f"savetimecur {res['tail']}"])
+            out['model(present SHOC overrides)'] = f'time_coordinate={a} save={b}'
         return out
     op = inp.get('op')
     if op:
